@@ -13,6 +13,7 @@ import importlib
 import os
 
 PARTS = ["tables", "signatures", "evalprogs", "effects", "regex", "scalars", "scalars_key", "scalars_chord", "defaults"]
+PARTS += ["hkshape"]      # no generated file: the pinned shape of util._bipartite_match (C05)
 
 
 def write_if_changed(path, text):
